@@ -63,13 +63,16 @@ impl Threshold {
     pub fn validate(&self, total_weight: u64) -> (r: Result<(), ThresholdError>)
         ensures r is Ok <==> self.valid(total_weight)
     { unimplemented!() }
-    #[verifier::external_body]
-    pub fn to_response(&self, total_weight: u64) -> (r: ThresholdResponse)
-        ensures r == (match *self {
+    pub open spec fn resp(self, total_weight: u64) -> ThresholdResponse {
+        match self {
             Threshold::AbsoluteCount { weight } => ThresholdResponse::AbsoluteCount { weight, total_weight },
             Threshold::AbsolutePercentage { percentage } => ThresholdResponse::AbsolutePercentage { percentage, total_weight },
             Threshold::ThresholdQuorum { threshold, quorum } => ThresholdResponse::ThresholdQuorum { threshold, quorum, total_weight },
-        })
+        }
+    }
+    #[verifier::external_body]
+    pub fn to_response(&self, total_weight: u64) -> (r: ThresholdResponse)
+        ensures r == self.resp(total_weight)
     { unimplemented!() }
 }
 
